@@ -92,7 +92,7 @@ F3Atoms ==
   \cup {[propertyNames |-> l] : l \in {[maxLength |-> 1], [pattern |-> "^a"], FalseS, [const |-> Str("a")]}}
   \cup {[minProperties |-> k] : k \in 0..2} \cup {[maxProperties |-> k] : k \in 0..2}
   \* (name lists that are in no sorted order, also below the root: the lists are the caller's, in the caller's order)
-  \cup {[required |-> r] : r \in {<<>>, <<"a">>, <<"a", "b">>, <<"c">>, <<"c", "a">>}}
+  \cup {[required |-> r] : r \in {<<>>, <<"a">>, <<"a", "b">>, <<"c">>, <<"c", "a">>, <<"a", "b", "a">>}}     \* (a name may repeat)
   \cup {[properties |-> [a |-> [required |-> <<"b", "a">>]]]}
   \cup {[dependentRequired |-> d] : d \in {[a |-> <<"b">>], [a |-> <<>>], [c |-> <<"a">>, a |-> <<"ab">>], [a |-> <<"c", "ab">>]}}
   \cup {[dependentSchemas |-> d] : d \in {[a |-> [required |-> <<"b">>]], [a |-> FalseS],
@@ -141,12 +141,23 @@ F5Docs(z) ==
   \cup {[defs |-> [node |-> ListNode(LocalRef(FragName("n"))) @@ [anchor |-> "n"]], ref |-> LocalRef(FragName("n"))]}
   \cup {[defs |-> [t |-> TreeNode(LocalRef(PtrDefs("t")))], ref |-> LocalRef(PtrDefs("t"))]}
   \cup {TreeNode(LocalRef(FragNone))}
+  \* the SAME reference text ("#/$defs/v", "#e", "#") inside two embedded resources: a relative reference is resolved
+  \* against the base of the resource it stands in, so equal texts name different subschemas
+  \cup {[defs |-> [cnt |-> [id |-> IdOf(URI("http", "h1", TRUE, <<"cnt.json">>)), defs |-> [v |-> d1 @@ [anchor |-> "e"]], ref |-> rf],
+                    nam |-> [id |-> IdOf(URI("http", "h1", TRUE, <<"nam.json">>)), defs |-> [v |-> d2 @@ [anchor |-> "e"]], ref |-> rf]],
+          properties |-> [p |-> [ref |-> Ref(URI("http", "h1", TRUE, <<"cnt.json">>), FragNone)], q |-> [ref |-> Ref(URI("http", "h1", TRUE, <<"nam.json">>), FragNone)]]] :
+            d1 \in {IntS}, d2 \in {StrS, [minimum |-> R_2]}, rf \in {LocalRef(PtrDefs("v")), LocalRef(FragName("e"))}}
+  \cup {[defs |-> [cnt |-> [id |-> IdOf(URI("http", "h1", TRUE, <<"cnt.json">>)), type |-> "object", properties |-> [p |-> IntS, q |-> [ref |-> LocalRef(FragNone)]]],
+                    nam |-> [id |-> IdOf(URI("http", "h1", TRUE, <<"nam.json">>)), type |-> "object", properties |-> [p |-> StrS, q |-> [ref |-> LocalRef(FragNone)]]]],
+          properties |-> [p |-> [ref |-> Ref(URI("http", "h1", TRUE, <<"cnt.json">>), FragNone)], q |-> [ref |-> Ref(URI("http", "h1", TRUE, <<"nam.json">>), FragNone)]]]}
 RECURSIVE ListVal(_, _)
 ListVal(n, last) == IF n = 0 THEN last ELSE Obj([v |-> Num(R_1), next |-> ListVal(n - 1, last)])
 F5Vals ==
   {Null, Num(R_1), Num(R_3), Num(R_h), Str("a"), EmptyObj, EmptyArr}
   \cup {ListVal(n, l) : n \in 1..3, l \in {Obj([v |-> Num(R_1)]), Obj([v |-> Str("a")]), Obj([w |-> Num(R_1)]), Num(R_1)}}
   \cup {Obj([p |-> x]) : x \in {Num(R_1), Num(R_3), Str("a")}}
+  \cup {Obj([p |-> x, q |-> y]) : x \in {Num(R_1), Str("a")}, y \in {Num(R_1), Num(R_3), Str("a")}}
+  \cup {Obj([p |-> Obj([p |-> x, q |-> Obj([p |-> y])]), q |-> Obj([p |-> w])]) : x \in {Num(R_1), Str("a")}, y \in {Num(R_1), Str("a")}, w \in {Num(R_1), Str("a")}}
   \cup {Arr(<<Num(R_1), Arr(<<Num(R_3), Arr(<<x>>)>>)>>) : x \in {Num(R_1), Str("a"), EmptyArr}}
   \cup {Arr(<<x>>) : x \in {Num(R_1), Str("a")}}
 
@@ -617,6 +628,14 @@ MxRoots == {[ref |-> RemRef(FragNone)], [properties |-> [a |-> [ref |-> RemRef(F
 MxDocs(z) == {[docs |-> <<[uri |-> RootURI, s |-> r @@ rv], [uri |-> RemURI, s |-> m @@ [schema |-> mv]]>>] :
                 r \in MxRoots, m \in MxRemBodies,
                 rv \in {<<>>, [schema |-> D2020], [schema |-> D7http]}, mv \in {D7http, D7https, D2020}}
+\* a diamond: the root reaches r.json directly (first, by walk order) and again through a.json, whose reference
+\* names a draft-07 anchor (fragment-only $id) in the document that is already loaded by then
+G5Diamond == {[docs |-> <<[uri |-> RootURI, s |-> [schema |-> v, properties |-> [a |-> [ref |-> RemRef(f1)], b |-> [ref |-> HopRef(FragNone)]]]],
+                          [uri |-> HopURI, s |-> h], [uri |-> RemURI, s |-> m]>>] :
+                 v \in {D7http, D7https}, f1 \in {FragNone, FragPtr(<<SegN("definitions", "x")>>)},
+                 h \in {[ref |-> RemRef(FragName("foo"))], [items |-> [ref |-> RemRef(FragName("foo"))]],
+                        [definitions |-> [y |-> [ref |-> RemRef(FragName("foo"))]], ref |-> LocalRef(PtrDefn("y"))]},
+                 m \in {[definitions |-> [x |-> d @@ [id |-> IdFrag("foo")]]] : d \in {IntS, [minimum |-> R_2]}}}
 Cases ==
   CASE Family = "F1" -> WithSchema(F1Schemas(0))
     [] Family = "F2" -> WithSchema(F2Schemas(0))
@@ -631,7 +650,7 @@ Cases ==
     [] Family = "G2" -> WithSchema(G2Schemas(0))
     [] Family = "G3" -> WithSchema(G3Docs(0))
     [] Family = "G4" -> G4Docs(0)
-    [] Family = "G5" -> {u \in G5Docs(0) : ResolveOK(u, "d7")}
+    [] Family = "G5" -> {u \in G5Docs(0) \cup G5Diamond : ResolveOK(u, "d7")}
     [] Family = "DY" -> DyCases(0) \cup DyMixedCases(0)
     [] Family = "FK" -> FkCases(0) \cup FkForkCases(0) \cup FkFailCases(0)
     [] Family = "DUP" -> DupCases(0)
